@@ -19,6 +19,12 @@ Lattice explorer on the real code:
 * the real ``LambertIOD`` (``fromConfig``, ``getPreviousObservations``, ``checkSinglePass``, ``_determineFinalState``,
   ``determineNewEstimateState``) against a real in-memory ``ResonaateDatabase`` that the harness fills with noise-free
   radar observations (plus decoy rows that each query filter has to reject);
+* the same pipeline with the IOD object obtained the way the library obtains it: a real ``EstimateAgent`` built by
+  ``Scenario.addTarget`` (a real ``Scenario`` whose ``ScenarioClock`` was advanced first), by
+  ``EstimateAgent.fromConfig`` and by the constructor, at scenario time t_add in {0, 600, 3600, 86400 s} (a target that
+  joins mid-run), for every ``InitialOrbitDeterminationLabel`` value given in the configuration; the agent's own
+  ``_update`` -> ``_handleIOD`` -> ``_attemptInitialOrbitDetermination`` sequence is driven over the detection step
+  and the step that delivers the second observation, and the state handed to the filter must be the orbit's state;
 * the Lambert entry points of the adaptive filter (``AdaptiveFilter._calculateDeltaV`` /
   ``_generateHypothesisManeuvers``) on a real filter object.
 
@@ -52,6 +58,10 @@ thorough lattice for seeds 0, 1, 7)
   shifts the Lambert end velocity by about (v_c / tof) dt_jd (measured: <= 0.5 of that).  Tolerance
   8 (v_c / tof) dt_jd + solver tolerance + 1e-9 km/s: 8e-6 km/s at the shortest separation (5 % of a LEO period),
   3 orders below the effect of a 1 s slip or of a wrong observation (>= 1e-2 km/s).
+* IOD through the agent: the same position / velocity tolerances as IOD (the Julian dates stay in the same binade for
+  t_add <= 3 days, so dt_jd is unchanged); a Julian-date origin that is off by the smallest t_add of the lattice
+  (300 s) changes the time of flight by >= 5 % of the longest arc and the velocity by >= 1e-2 km/s, or empties the
+  query window.
 * MMAE: the solver tolerances (measured: universal 1.1e-10 v_c / 1.6e-11 a, Battin 1.1e-9 v_c / 1.5e-8 a).
 """
 from __future__ import annotations
@@ -87,10 +97,18 @@ RULE = (
     "model, and as forward-model values (range, range-rate sign, elevation, azimuth domain and bearing); IOD: every "
     "(orbit, site, separation, solver, database variant) through the real LambertIOD on a real in-memory database, and "
     "every (range/separation class, site, zenith distance, 8 bearings relative to the Earth-relative heading, which of "
-    "the two observations is the near-zenith one) on circular truth orbits through the near-zenith point; MMAE: every "
+    "the two observations is the near-zenith one) on circular truth orbits through the near-zenith point; IOD through "
+    "the agent: every (orbit, t_add [scenario time at which the estimate agent is created: 0, 600, 3600, 86400 s], "
+    "InitialOrbitDeterminationLabel value [enumerated from the enum], way the agent is obtained [Scenario.addTarget on "
+    "a real Scenario whose clock was advanced to t_add, EstimateAgent.fromConfig, constructor], detection step [the "
+    "step after t_add, 4 steps before the stored observation], separation up to 39 % of a period [Gauss <= 30 deg]) "
+    "driven through EstimateAgent._update on the detection step and on the step of the second observation, plus the "
+    "wiring of the IOD object (start Julian date, target id, solver of that name, spacing) and the outcomes that must "
+    "not converge; every label value through lambertInitializationFactory on near-circular arcs up to 39 % of a "
+    "period; MMAE: every "
     "(orbit, solver, gap) through AdaptiveFilter._calculateDeltaV/_generateHypothesisManeuvers. non-trivial = transfer "
     "angle > 180 deg or e >= 0.4 (arcs), separation >= 30 % of the period or a database variant with a decoy row "
-    "(IOD) or a zenith distance < 1e-3 rad, elevation/azimuth on a lattice edge or a space-based site (radar), zenith "
+    "(IOD), an estimate agent created after the scenario start (t_add > 0; IOD through the agent) or a zenith distance < 1e-3 rad, elevation/azimuth on a lattice edge or a space-based site (radar), zenith "
     "distance < 1e-3 rad or a seam offset <= 1e-6 rad (thresholds), a hypothesis whose transfer exceeds "
     "half a revolution or a radar/optical mix (MMAE); helper cases are non-trivial at a branch threshold. Distinct by "
     "construction (lattice points); VERIF_SEED rotates RAAN / argument of perigee / start anomaly, the start day and "
@@ -106,6 +124,12 @@ ASSUMPTIONS = [
     "the radar reference cases); sensor motion itself is not under test here",
     "sqlite in-memory database through the real ResonaateDatabase/getDBConnection over the in-process fake ray "
     "key-value store",
+    "IOD through the agent: the scenario clock is advanced to t_add by ScenarioClock.ticToc without propagating the "
+    "scenario's own agents; the harness stands in for the nominal filter (sets nominal_filter.maneuver_detected on the "
+    "detection step, does not run the Kalman update), sets agent.time the way EstPredictRegistration.processResults "
+    "does and stores the observations of earlier steps itself; determineNewEstimateState is wrapped by a pass-through "
+    "recorder. Initial estimates of fromConfig / addTarget carry the configured initial noise (seed pinned): IOD must "
+    "replace them by the orbit's state",
 ]
 EXPECT_MIN_NONTRIVIAL = 500
 
@@ -253,6 +277,34 @@ IOD_VARIANTS = [
     "all_decoys",
 ]
 
+# IOD through a real EstimateAgent: scenario time (s) at which the estimate agent is created (whole steps of 60 and of
+# 300 s).  0 = every agent of an ordinary scenario; > 0 = a target that joins mid-run (target-addition event): only
+# then do the agent's epoch, the clock's epoch and the scenario start differ, and scenario times, times since the agent
+# was created and Julian dates can be told apart.
+T_ADD_Q = [0, 600, 3600, 86400]
+T_ADD_T = [0, 300, 600, 3600, 43200, 86400, 259200]
+IOD_AGENT_SEPS_Q = [5, 8, 20, 34, 39]
+IOD_AGENT_SEPS_T = [2, 5, 8, 10, 20, 30, 34, 36, 39, 39.9]
+IOD_AGENT_PATHS = ["add_target", "from_config", "constructor"]
+IOD_AGENT_DETECT = ["step_after_added", "before_stored_observation"]
+FACTORY_ARCS = {"sma": [6878.0, 26560.0, 42164.0], "ecc": [0.0, 1e-3], "fracs": [0.02, 0.05, 0.08, 0.2, 0.3, 0.36, 0.39]}
+
+
+def _iod_labels():
+    """Every value of the configuration enum (not a list kept by the harness), in a fixed order."""
+    from resonaate.common.labels import InitialOrbitDeterminationLabel  # noqa: PLC0415
+
+    return sorted(str(m.value) for m in InitialOrbitDeterminationLabel)
+
+
+def _solver_of_label(label):
+    """'lambert_battin' -> ('battin', lambert.lambertBattin): the solver *of that name* in the Lambert module."""
+    head, tail = label.split("_", 1)
+    key = tail.replace("_", "")
+    if head != "lambert" or key not in TOL:
+        raise RuntimeError(f"IOD label {label!r} is not known to this check: extend TOL / the lattices")
+    return key, getattr(lam, head + "".join(w.capitalize() for w in tail.split("_")))
+
 
 def items(tier, seed):
     out = []
@@ -282,6 +334,10 @@ def items(tier, seed):
     for oi in range(len(orbits)):
         for si in range(len(sites)):
             out.append(("iod", tier, seed, oi, si))
+    for oi in range(len(orbits)):
+        for ai in range(len(T_ADD_Q if tier == "quick" else T_ADD_T)):
+            for label in _iod_labels():
+                out.append(("iod_agent", tier, seed, oi, ai, label))
     for oi in range(len(orbits)):
         out.append(("iod_api", tier, seed, oi))
         for solver in ("universal", "battin"):
@@ -323,6 +379,18 @@ def bounds(tier, seed):
             "which_observation_near_zenith": ["second (current)", "first (stored)"],
             "solvers": "universal / battin alternating over the bearings (quick), both (thorough)",
         },
+        "iod_through_estimate_agent": {
+            "agent_created_at_scenario_time_s": T_ADD_Q if tier == "quick" else T_ADD_T,
+            "labels": _iod_labels(),
+            "agent_obtained_by": IOD_AGENT_PATHS,
+            "detection_step": IOD_AGENT_DETECT,
+            "separations_percent": IOD_AGENT_SEPS_Q if tier == "quick" else IOD_AGENT_SEPS_T,
+            "gauss_only_up_to_deg": GAUSS_MAX_DEG,
+            "orbits": "iod_orbits",
+            "clock": "real ScenarioClock of a real Scenario, advanced by ticToc to t_add before the agent is created",
+            "must_not_converge": ["only_before_detection", "same_step", "optical_only_now", "no_iod_configured"],
+        },
+        "factory_arcs": FACTORY_ARCS | {"labels": _iod_labels(), "spellings": ["enum member", "plain string"]},
         "tolerances": TOL,
     }
 
@@ -457,6 +525,36 @@ def _run_helpers(res, item):
         distinct = all(not np.array_equal(got[0], o[0]) for o in others)
         res.case("helpers/factory", {"label": label}, same and distinct, nontrivial=True,
                  signature=f"C20/helpers/factory/{label}", observed=[got[0], got[1]], expected=[exp[0], exp[1]], item=item)
+    # every value of the configuration enum, as enum member and as plain string: the solver of that name, and it
+    # reproduces near-circular arcs up to the property's 40 % of a period (Gauss: up to 30 deg) - the arcs IOD feeds it
+    from resonaate.common.labels import InitialOrbitDeterminationLabel  # noqa: PLC0415
+
+    for label in _iod_labels():
+        solver, solver_fn = _solver_of_label(label)
+        for spelling, name in (("enum", InitialOrbitDeterminationLabel(label)), ("str", label)):
+            fn = lambertInitializationFactory(name)
+            res.case("helpers/factory_name", {"label": label, "spelling": spelling}, fn is solver_fn, nontrivial=True,
+                     signature=f"C20/helpers/factory_name/{label}", observed=getattr(fn, "__name__", repr(fn)),
+                     expected=solver_fn.__name__, item=item)
+            if not callable(fn):
+                continue
+            vtol = TOL[solver][0]
+            for a in FACTORY_ARCS["sma"]:
+                for e in FACTORY_ARCS["ecc"]:
+                    for frac in FACTORY_ARCS["fracs"]:
+                        arc2 = ref.arc(a, e, 0.9, 0.3 + 2 * math.pi * _phase(seed, 0), 1.0, 0.4 + 2 * math.pi * _phase(seed, 2), frac)
+                        if solver == "gauss" and arc2["dnu"] / DEG > GAUSS_MAX_DEG:
+                            continue
+                        try:
+                            with np.errstate(all="ignore"):
+                                v1, v2 = fn(np.array(arc2["r1"]), np.array(arc2["r2"]), arc2["tof"], 1)
+                            err = max(_maxabs(v1, arc2["v1"]), _maxabs(v2, arc2["v2"])) / math.sqrt(MU / a)
+                            obs = {"v1": v1, "v2": v2, "err_rel": err}
+                        except Exception as exc:  # noqa: BLE001
+                            err, obs = float("inf"), f"{type(exc).__name__}: {exc}"
+                        res.case("helpers/factory_arcs", {"label": label, "spelling": spelling, "a": a, "e": e, "frac": frac},
+                                 err <= vtol, nontrivial=frac >= 0.3, signature=f"C20/helpers/factory_arcs/{label}",
+                                 observed=obs, expected={"v1": arc2["v1"], "v2": arc2["v2"], "tol_rel": vtol}, item=item)
     bad = None
     try:
         lambertInitializationFactory("lambert_nonsense")
@@ -802,19 +900,22 @@ class _World:
         """Specification of a stored observation (built into a real Observation by ``reset``)."""
         return (t, target, sensor, kind)
 
-    def reset(self, rows):
-        """Empty the observation/epoch tables and store ``rows`` (specs, in the given order) with their epochs and agents."""
+    def reset(self, rows, epochs=True):
+        """Empty the observation/epoch tables and store ``rows`` (specs, in the given order) with their epochs and agents.
+
+        ``epochs=False``: the epoch table is left alone (a real ScenarioClock has filled it with every step)."""
         from resonaate.data.agent import AgentModel  # noqa: PLC0415
         from resonaate.data.epoch import Epoch  # noqa: PLC0415
         from resonaate.data.observation import Observation  # noqa: PLC0415
         from sqlalchemy.orm import Query  # noqa: PLC0415
 
         self.db.deleteData(Query(Observation))
-        self.db.deleteData(Query(Epoch))
+        if epochs:
+            self.db.deleteData(Query(Epoch))
         self.db.deleteData(Query(AgentModel))
         self.db.insertData(*[AgentModel(unique_id=i, name=f"A{i}") for i in (TGT, TGT2, SEN, SEN2)])
         seen = set()
-        for spec in rows:
+        for spec in rows if epochs else ():
             jd = float(self.jd(spec[0]))
             if jd not in seen:
                 seen.add(jd)
@@ -876,7 +977,7 @@ def _judge_state(res, sub, world, solver, sol, err, t1, t2, case, nontrivial, it
     ptol = TOL_IOD_POS_KM + pos_extra
     ok = ep <= ptol and ev <= vtol and sol.message == "IOD successful"
     res.case(sub, case, ok, nontrivial=nontrivial,
-             signature=f"C20/iod/{sig_tail}/" + ("position" if ep > ptol else "velocity" if ev > vtol else "message"),
+             signature=f"C20/iod/{sig_tail}/" + ("position" if not ep <= ptol else "velocity" if not ev <= vtol else "message"),
              observed={"state": sv, "pos_err_km": ep, "vel_err_km_s": ev, "vel_err_over_tol": ev / vtol, "message": sol.message},
              expected={"state": truth, "pos_tol": ptol, "vel_tol": vtol}, outcome="converged", item=item)
     res.observe(sv)
@@ -1132,6 +1233,224 @@ def _run_iod_api(res, item):
              observed=[iod3.minimum_observation_spacing, iod3.sat_num, float(iod3.julian_date_start)], expected=[77, TGT, float(w.jd0)], item=item)
 
 
+# ------------------------------------------------------------------------------------------------ IOD through the agent
+_EST_NOISE = {"init_position_std_km": 1e-3, "init_velocity_std_km_p_sec": 1e-6, "filter_noise_type": "continuous_white_noise",
+              "filter_noise_magnitude": 3.0e-14, "random_seed": 1}
+
+
+def _estimation_cfg(label, spacing):
+    """Estimation section of a scenario configuration with IOD switched on and the solver given by its label."""
+    return {
+        "sequential_filter": {"name": "unscented_kalman_filter", "dynamics_model": "two_body",
+                              "maneuver_detection": {"name": "standard_nis", "threshold": 0.01},
+                              "initial_orbit_determination": True},
+        "adaptive_filter": None,
+        "initial_orbit_determination": {"name": label, "minimum_observation_spacing": spacing},
+    }
+
+
+def _make_estimate_agent(path, scenario, state, label, spacing, with_iod=True):
+    """A real EstimateAgent of target TGT, created *now* (at the scenario clock's current time), obtained
+
+    * add_target:  by ``Scenario.addTarget`` (what a target-addition event calls), taken from ``estimate_agents``;
+    * from_config: by ``EstimateAgent.fromConfig`` with the scenario's clock and own configuration objects;
+    * constructor: by the constructor with a hand-made filter (as the unit tests build it)."""
+    from resonaate.agents.estimate_agent import EstimateAgent  # noqa: PLC0415
+    from resonaate.dynamics.two_body import TwoBody  # noqa: PLC0415
+    from resonaate.estimation.kalman.unscented_kalman_filter import UnscentedKalmanFilter  # noqa: PLC0415
+    from resonaate.estimation.maneuver_detection import StandardNis  # noqa: PLC0415
+    from resonaate.scenario.config.agent_config import AgentConfig  # noqa: PLC0415
+    from resonaate.scenario.config.estimation_config import EstimationConfig, InitialOrbitDeterminationConfig  # noqa: PLC0415
+    from resonaate.scenario.config.noise_config import NoiseConfig  # noqa: PLC0415
+
+    clock = scenario.clock
+    spec = scen.target_eci(TGT, state[:3], state[3:])
+    if path == "add_target":
+        if TGT in scenario.target_agents:
+            scenario.removeTarget(TGT, 1)
+        scenario.addTarget(spec, 1)
+        return scenario.estimate_agents[TGT]
+    if path == "from_config":
+        est = _estimation_cfg(label, spacing)
+        if not with_iod:
+            est["initial_orbit_determination"] = None
+            est["sequential_filter"]["initial_orbit_determination"] = False
+        return EstimateAgent.fromConfig(AgentConfig(**spec), clock, TwoBody(), scenario.scenario_config.time,
+                                        NoiseConfig(**_EST_NOISE), EstimationConfig(**est))
+    p = np.diag([1.0, 1.0, 1.0, 1e-6, 1e-6, 1e-6])
+    x0 = np.asarray(state, dtype=float) + np.array([0.5, -0.3, 0.2, 1e-4, 2e-4, -1e-4])
+    nominal = UnscentedKalmanFilter(TGT, clock.time, x0, p, TwoBody(), 1e-12 * p, StandardNis(0.01), True)
+    return EstimateAgent(TGT, "late_target", "Spacecraft", clock, x0, p, nominal, None,
+                         InitialOrbitDeterminationConfig(name=label, minimum_observation_spacing=spacing),
+                         10.0, 100.0, 0.21)
+
+
+class _Spy:
+    """Pass-through recorder around the IOD object's determineNewEstimateState (arguments and the IODSolution)."""
+
+    def __init__(self, iod):
+        self.calls = []
+        self._real = iod.determineNewEstimateState
+        iod.determineNewEstimateState = self
+
+    def __call__(self, observations, detection_time, current_time):
+        sol = self._real(observations, detection_time, current_time)
+        self.calls.append((float(detection_time), float(current_time), sol))
+        return sol
+
+
+def _agent_flow(agent, w, t_det, rows, t2, current):
+    """Drive the agent the way two scenario steps do: on the step at t_det the nominal filter flags a manoeuvre (the
+    harness stands in for the filter's detection test) and ``_update`` switches IOD on; the scenario collects the
+    detection and stores the observations; on the step at t2 ``_update`` attempts IOD with the current observations.
+    Returns (spy, error text or None, estimate before the second step)."""
+    from resonaate.physics.time.stardate import ScenarioTime  # noqa: PLC0415
+
+    spy = _Spy(agent.initial_orbit_determination)
+    try:
+        with np.errstate(all="ignore"):
+            agent.time = ScenarioTime(t_det)
+            agent.nominal_filter.maneuver_detected = True
+            agent._update([w.obs(t_det)])  # noqa: SLF001
+            same_step_calls = len(spy.calls)
+            agent.getDetectedManeuvers()
+            agent.nominal_filter.maneuver_detected = False
+            w.reset(rows, epochs=False)
+            before = np.array(agent.nominal_filter.est_x, dtype=float)
+            agent.time = ScenarioTime(t2)
+            agent._update(current)  # noqa: SLF001
+        return spy, None, before, same_step_calls
+    except Exception as exc:  # noqa: BLE001
+        return spy, f"{type(exc).__name__}: {exc}", None, None
+
+
+def _run_iod_agent(res, item):
+    """LambertIOD as the library builds and drives it: inside an EstimateAgent that is created at scenario time t_add."""
+    from resonaate.physics.time.stardate import ScenarioTime  # noqa: PLC0415
+
+    _, tier, seed, oi, ai, label = item
+    orbit = (IOD_ORBITS_Q if tier == "quick" else IOD_ORBITS_T)[oi]
+    t_add = (T_ADD_Q if tier == "quick" else T_ADD_T)[ai]
+    seps = IOD_AGENT_SEPS_Q if tier == "quick" else IOD_AGENT_SEPS_T
+    sites = _sites(tier, seed)
+    site = sites[(oi + ai) % len(sites)]
+    solver, solver_fn = _solver_of_label(label)
+    start = _seed_start(seed, 70 + oi + 5 * ai)
+    period = ref.period(orbit[0])
+    step = 60 if period < 30000 else 300
+    # the pass starts 0.7 P after the agent was created; detection either on the step after the agent was created or 4
+    # steps before the stored observation
+    t1 = t_add + (14 + round(0.7 * period / step)) * step
+    span = t1 + (8 + math.ceil(0.4 * period / step)) * step
+    spacing = 60 + 7 * ai + oi  # a value that differs from the default and between items
+    engine = scen.engine(1, [scen.target_eci(TGT2, *scen.LEO_B)], [scen.ground_sensor(SEN, site[0], site[1], site[2])])
+    cfg = scen.config(start, 1, [engine], physics=step, seed=1, estimation=_estimation_cfg(label, spacing),
+                      stop=start + timedelta(seconds=span))
+    scenario = scen.build(cfg)
+    clock = scenario.clock
+    while clock.time < t_add:
+        clock.ticToc()
+    if float(clock.time) != float(t_add):
+        raise RuntimeError(f"clock at {clock.time}, wanted {t_add}")
+    w = _World(start, orbit, site, seed + 11 * oi)
+    if float(w.jd0) != float(clock.julian_date_start):
+        raise RuntimeError("harness start date differs from the clock's")
+    base = {"orbit": list(orbit), "site": list(site), "t_add": t_add, "label": label, "start": start.isoformat()}
+    late = "late_added" if t_add > 0 else "at_start"
+    state_add = w.truth(t_add)
+    detect = {"step_after_added": t_add + step, "before_stored_observation": t1 - 4 * step}
+    for path in IOD_AGENT_PATHS:
+        # --- wiring of the IOD object the agent carries
+        agent = _make_estimate_agent(path, scenario, state_add, label, spacing)
+        iod = agent.initial_orbit_determination
+        wiring = [
+            ("start_jd", float(iod.julian_date_start), float(clock.julian_date_start)),
+            ("sat_num", iod.sat_num, TGT),
+            ("solver", getattr(iod.orbit_determination_method, "__name__", None), solver_fn.__name__),
+            ("spacing", iod.minimum_observation_spacing, spacing),
+            ("min_observations", iod.min_observations, 2),
+            ("agent_time", float(agent.time), float(t_add)),
+        ]
+        for name, got, exp in wiring:
+            ok = got == exp and (name != "solver" or iod.orbit_determination_method is solver_fn)
+            res.case("iod_agent/wiring", {**base, "path": path, "field": name}, ok, nontrivial=t_add > 0,
+                     signature=f"C20/iod_agent/wiring/{name}/{late}", observed=got, expected=exp, outcome=name, item=item)
+        for dname, t_det in detect.items():
+            for sep in seps:
+                t2 = t1 + max(step, round(sep / 100.0 * w.period / step) * step)
+                frac = (t2 - t1) / w.period
+                if not frac < 0.4:
+                    t2 -= step
+                    frac = (t2 - t1) / w.period
+                if solver == "gauss" and frac * 360.0 > GAUSS_MAX_DEG:
+                    continue
+                case = {**base, "path": path, "detect": dname, "sep_percent": sep, "sep_frac": round(frac, 6), "solver": solver}
+                agent = _make_estimate_agent(path, scenario, state_add, label, spacing)
+                # the observation of the detection step is in the database too (the scenario stores every step's)
+                rows = [w.row(t_det), w.row(t1)] if t_det < t1 else [w.row(t1)]
+                spy, err, before, same_step = _agent_flow(agent, w, t_det, rows, t2, [w.obs(t2)])
+                nt = t_add > 0 or frac >= 0.3
+                sig = f"agent_{path}/{late}"
+                if err is None and len(spy.calls) != 1:
+                    res.case("iod_agent/state", case, False, nontrivial=nt, signature=f"C20/iod/{sig}/attempts",
+                             observed=[c[:2] for c in spy.calls], expected="one attempt, on the second step", outcome="attempts", item=item)
+                    continue
+                sol = spy.calls[-1][2] if spy.calls else None
+                _judge_state(res, "iod_agent/state", w, solver, sol, err, t1, t2, case, nt, item, sig)
+                if err is not None:
+                    continue
+                # what the agent handed to the solver and what it did with the answer
+                got_args = [spy.calls[0][0], spy.calls[0][1], same_step]
+                exp_args = [float(t_det), float(t2), 0]
+                est = np.asarray(agent.nominal_filter.est_x, dtype=float)
+                if sol.convergence:
+                    handed = np.array_equal(est, np.asarray(sol.state_vector, dtype=float), equal_nan=True) and agent.iod_start_time is None
+                else:
+                    handed = np.array_equal(est, before) and agent.iod_start_time == ScenarioTime(t_det)
+                res.case("iod_agent/handback", case, got_args == exp_args and handed, nontrivial=nt,
+                         signature=f"C20/iod_agent/handback/" + ("arguments" if got_args != exp_args else "estimate"),
+                         observed={"detection_time, current_time, attempts on the detection step": got_args, "est_x": est,
+                                   "iod_start_time": None if agent.iod_start_time is None else float(agent.iod_start_time)},
+                         expected={"args": exp_args, "est_x": "the IOD state, IOD switched off" if sol.convergence else "unchanged"},
+                         outcome="converged" if sol.convergence else "rejected", item=item)
+    # --- outcomes that must not converge (and must leave the estimate alone), through EstimateAgent.fromConfig
+    t_det = detect["before_stored_observation"]
+    t2 = t1 + round(0.2 * w.period / step) * step
+    for name, rows, current, message in (
+        ("only_before_detection", [w.row(t_det - step)], [w.obs(t2)], f"No observations in database of RSO {TGT}"),
+        ("optical_only_now", [w.row(t1)], [w.obs(t2, kind="optical")], "No Radar observations to perform Lambert IOD"),
+    ):
+        agent = _make_estimate_agent("from_config", scenario, state_add, label, spacing)
+        spy, err, before, _same = _agent_flow(agent, w, t_det, rows, t2, current)
+        ok = (err is None and len(spy.calls) == 1 and spy.calls[0][2].convergence is False and spy.calls[0][2].message == message
+              and np.array_equal(np.asarray(agent.nominal_filter.est_x, dtype=float), before)
+              and agent.iod_start_time == ScenarioTime(t_det))
+        res.case("iod_agent/rejections", {**base, "variant": name}, ok, nontrivial=t_add > 0,
+                 signature=f"C20/iod_agent/rejections/{name}",
+                 observed=err or [[c[2].convergence, c[2].message] for c in spy.calls], expected=[False, message], outcome=name, item=item)
+    # no attempt on the step that switches IOD on, even if a usable pair of observations exists
+    agent = _make_estimate_agent("from_config", scenario, state_add, label, spacing)
+    spy = _Spy(agent.initial_orbit_determination)
+    w.reset([w.row(t1)], epochs=False)
+    agent.time = ScenarioTime(t2)
+    agent.nominal_filter.maneuver_detected = True
+    before = np.array(agent.nominal_filter.est_x, dtype=float)
+    agent._update([w.obs(t2)])  # noqa: SLF001
+    ok = not spy.calls and agent.iod_start_time == ScenarioTime(t2) and np.array_equal(np.asarray(agent.nominal_filter.est_x), before)
+    res.case("iod_agent/rejections", {**base, "variant": "same_step"}, ok, nontrivial=t_add > 0, signature="C20/iod_agent/rejections/same_step",
+             observed=[len(spy.calls), None if agent.iod_start_time is None else float(agent.iod_start_time)], expected=[0, float(t2)],
+             outcome="same_step", item=item)
+    # an agent configured without IOD carries none and never converges
+    agent = _make_estimate_agent("from_config", scenario, state_add, label, spacing, with_iod=False)
+    agent.time = ScenarioTime(t2)
+    agent.iod_start_time = ScenarioTime(t_det)
+    got = agent._attemptInitialOrbitDetermination([w.obs(t2)])  # noqa: SLF001
+    ok = agent.initial_orbit_determination is None and got[0] is False and got[1] is None
+    res.case("iod_agent/rejections", {**base, "variant": "no_iod_configured"}, ok, signature="C20/iod_agent/rejections/no_iod_configured",
+             observed=[agent.initial_orbit_determination is None, got[0]], expected=[True, False], outcome="no_iod", item=item)
+    worker_init()  # leave a fresh in-memory database / key-value store for the next item of this worker
+
+
 # ------------------------------------------------------------------------------------------------ MMAE entry points
 def _adaptive_filter(solver, est_x):
     from resonaate.dynamics.two_body import TwoBody  # noqa: PLC0415
@@ -1251,6 +1570,7 @@ def run_item(item):
         "arcs": _run_arcs, "helpers": _run_helpers, "direction": _run_direction, "radar": _run_radar,
         "radar_space": _run_radar_space, "radar_zenith": _run_radar_zenith, "radar_zenith_space": _run_radar_zenith_space,
         "radar_seam": _run_radar_seam, "iod_zenith": _run_iod_zenith, "iod": _run_iod, "iod_api": _run_iod_api, "mmae": _run_mmae,
+        "iod_agent": _run_iod_agent,
     }[kind]
     try:
         runner(res, item)
